@@ -1604,13 +1604,15 @@ class Wtp:
                             # https://en.wikipedia.org/wiki/Help:Template
                             # (but not around unnamed parameters)
                             k, arg = m2.groups()
-                            if k.isdecimal() and int(k) > 0:
-                                k = int(k)
-                            else:
+                            if not k.isdecimal():
                                 self.expand_stack.append("ARGNAME")
                                 k = expand_recurse(k, parent, True)
                                 k = re.sub(r"\s+", " ", k).strip()
                                 self.expand_stack.pop()
+                            # A name that is (or expands to) a positive
+                            # number denotes the positional parameter
+                            if k.isdecimal() and int(k) > 0:
+                                k = int(k)
                         else:
                             k = num
                             num += 1
